@@ -137,6 +137,11 @@ package section
 //@   requires forall i int {s[i]} :: 0 <= i && i < len(s) ==> s[i] != nil
 //@   assigns allof("E.parse_section_LinePos"), allof("E.pgo_augment_PosAdjustment")
 //@   ensures [C19] one-entry-per-line: len(lines) == len(s)
+//@   unfold lineStart(s, 0) == 0
+//@   at call sort.Sort assert [C19] every-line-is-recorded-at-the-offset-it-is-written-at: len(lines) == len(s) && forall j int {lines[j]} :: 0 <= j && j < len(lines) ==> lines[j].Offset == lineStart(s, j) && lines[j].Pos == s[j].StartPos
 //@   loop 0
+//@     unfold lineStart(s, #k + 1) == lineStart(s, #k) + len(s[#k].Text) + 1
 //@     invariant len(lines) == #k
 //@     invariant lines.arr == 0 || fresh(lines.arr)
+//@     invariant [C19] len(bufstr(buff)) == lineStart(s, #k)
+//@     invariant [C19] forall j int {lines[j]} :: 0 <= j && j < #k ==> lines[j].Offset == lineStart(s, j) && lines[j].Pos == s[j].StartPos
